@@ -180,8 +180,10 @@ class Parameter(AnnotatedValue):
             elif (
                 isinstance(value, AnnotatedValue)
                 and value.kind == ParamType.FLOAT
+                and hasattr(value, "value")
                 and int(value.value) == value.value
             ):
+                # A constant whose floating point value is integral
                 pass
             else:
                 raise JaqalError(
